@@ -133,19 +133,21 @@ _eq_counter = [0]
 def _equiv_gen(rng):
     k = _eq_counter[0]
     _eq_counter[0] += 1
-    kind = ["double_parallel", "double_series", "coaxial", "single", "coaxial"][k] if k < 5 else rng.choice(["double_parallel", "double_series", "coaxial", "coaxial", "single"])
-    a = {"kind": kind, "flow": rng.choice([0.1, 0.3, 0.5, 0.8, 1.5]), "k_soil": round(rng.uniform(1.0, 4.0), 2), "k_grout": round(rng.uniform(0.6, 2.4), 2), "k_pipe": round(rng.uniform(0.3, 0.6), 2),
+    kind = ["double_parallel", "double_series", "coaxial", "single", "coaxial", "double_parallel", "double_parallel"][k] if k < 7 else rng.choice(["double_parallel", "double_series", "coaxial", "coaxial", "single"])
+    a = {"kind": kind, "flow": rng.choice([0.05, 0.1, 0.1, 0.3, 0.5, 0.8, 1.5]), "k_soil": round(rng.uniform(1.0, 4.0), 2), "k_grout": round(rng.uniform(0.6, 2.4), 2), "k_pipe": round(rng.uniform(0.3, 0.6), 2),
          "fluid": rng.choice(["Water", "Water", "PropyleneGlycol"]), "H": rng.choice([50.0, 100.0, 200.0])}
     a["conc"] = 20.0 if a["fluid"] != "Water" else 0.0
     if k in (2, 4):  # the two recorded findings' inputs come first: coaxial at 0.1 L/s (no root for the pipe conductivity) and at 0.8 L/s (stale delta-circuit)
         a["flow"] = 0.1 if k == 2 else 0.8
+    if k in (5, 6):  # laminar flow in the tubes of a parallel double U-tube: the convective term dominates and the matching pipe conductivity is far below the equal-volume estimate
+        a.update(flow=0.1 if k == 5 else 0.05, fluid="Water", conc=0.0)
     if kind == "coaxial":
         r_ii = rng.uniform(0.018, 0.024)
         a.update(r_ii=r_ii, r_io=r_ii + rng.uniform(0.002, 0.004), r_oi=r_ii + rng.uniform(0.02, 0.03))
         a["r_oo"] = a["r_oi"] + rng.uniform(0.004, 0.008)
         a["r_b"] = a["r_oo"] + rng.uniform(0.01, 0.03)
     else:
-        a.update(r_in=rng.uniform(0.011, 0.017), s=rng.uniform(0.012, 0.03))
+        a.update(r_in=rng.uniform(0.011, 0.017) if k not in (5, 6) else 0.01702, s=rng.uniform(0.012, 0.03))
         a["r_out"] = a["r_in"] + rng.uniform(0.002, 0.005)
         a["s"] = max(a["s"], 0.9 * a["r_out"])  # the four legs of a double U-tube must not overlap: s >= 2 (sqrt 2 - 1) r_out
         a["r_b"] = max(0.055, 2 * a["r_out"] + a["s"] / 2 + 0.012) + rng.uniform(0.0, 0.03)
@@ -153,7 +155,7 @@ def _equiv_gen(rng):
 
 
 native(f"{B_}:GHEDesignerBoreholeWithMultiplePipes.equivalent_single_u_tube", _equiv_check, _equiv_gen, None,
-       bound="real double-U (series/parallel), coaxial and single exchangers: radii/spacings that fit, r_b 55..110 mm, k_soil 1..4, k_grout 0.6..2.4, k_pipe 0.3..0.6, water / 20 % propylene glycol, 0.1..1.5 L/s, "
+       bound="real double-U (series/parallel), coaxial and single exchangers: radii/spacings that fit, r_b 55..110 mm, k_soil 1..4, k_grout 0.6..2.4, k_pipe 0.3..0.6, water / 20 % propylene glycol, 0.05..1.5 L/s (laminar tube flow included), "
              "H 50..200 m: volumes (1e-9), R_fp (1e-4), original untouched, R_b* (0.1 %)")
 
 
